@@ -25,7 +25,11 @@ Deep == { Arr(<<Oa(Oa(N1)), Oa(N2)>>),
           Oab(Oab(N1, Arr(<<N2>>)), Arr(<<Arr(<<N1>>), Arr(<<>>)>>)),
           Arr(<<Arr(<<N1, N2>>), Arr(<<N3>>)>>),
           Oa(Oa(Oa(N1))),
-          Arr(<<Oab(N1, N2), Oab(N2, N1), Ob(N1)>>) }
+          Arr(<<Oab(N1, N2), Oab(N2, N1), Ob(N1)>>),
+          Arr(<<O0>>), Oa(O0), Arr(<<O0, Oa(N1)>>), Arr(<<A0, Arr(<<N1>>)>>),
+          \* keys that differ between levels: a stale/aliased key buffer of an outer object shows
+          Oab(Obj(<<KV(kc, N1), KV(kd, N2)>>), Obj(<<KV(kc, N3), KV(ke, N1)>>)),
+          Obj(<<KV(ka, Obj(<<KV(kd, Oa(N1)), KV(ke, N2)>>)), KV(kb, Oab(N1, N2)), KV(kc, Obj(<<KV(ka, N3), KV(ke, Sa)>>))>>) }
 InnerQ == {N1, Sa, A0, Oa(N1), Arr(<<N1, N2>>), Oab(N2, N1)}
 InnerP == IF DocSet = "small" THEN InnerQ ELSE Inner
 DocsPairs == Scalars \cup {Arr(s) : s \in SeqsUpTo(InnerP, 2)} \cup ObjsOver(InnerP) \cup Deep
@@ -55,6 +59,14 @@ Queries == {
   Cmp("==", Path("@", <<Nm(ka)>>, <<FF(Fn_fid)>>), Lit(N1)),
   Exist(Path("@", <<Wild>>, <<AF(Fn_gcnt), FF(Fn_fid)>>))
 }
+QueriesQ == {
+  Exist(Pa), Exist(Cur(<<>>)), NotP(Pa), Exist(Root(<<Nm(kb)>>)),
+  Cmp("==", Pa, Lit(N1)), Cmp("==", Lit(N1), Pa), Cmp("!=", Pa, Lit(N1)), Cmp("==", Cur(<<>>), Lit(Sa)),
+  Cmp("==", Pa, Root(<<Nm(kb)>>)), Cmp("!=", Pa, Root(<<Nm(kb)>>)), Cmp("==", Root(<<Nm(ka)>>), Lit(N1)),
+  Cmp("<", Pa, Lit(N2)), Cmp(">", Pa, Root(<<Nm(kb)>>)), Cmp("<", Lit(N1), Pa), Re(Cur(<<>>), "a"),
+  And(Exist(Pa), Exist(Pb)), Or(Cmp("!=", Pa, Root(<<Nm(kb)>>)), Exist(Pb)),
+  NotP(Root(<<>>)), And(Exist(Root(<<>>)), Exist(Pa)),
+  Cmp(">", Path("@", <<>>, <<AF(Fn_gcnt)>>), Lit(N1)), Cmp("==", Path("@", <<Nm(ka)>>, <<FF(Fn_fid)>>), Lit(N1)) }
 QueriesT == { Exist(Pa), Cmp("==", Pa, Lit(N1)), Cmp("<", Pa, Lit(N2)), Exist(Cur(<<>>)),
               Cmp(">", Path("@", <<>>, <<AF(Fn_gcnt)>>), Lit(N1)), Cmp("==", Path("@", <<Nm(ka)>>, <<FF(Fn_fid)>>), Lit(N1)) }
 
@@ -64,7 +76,7 @@ Brackets == { Multi(<<Nm(ka), Nm(kb)>>), Multi(<<Nm(kb), Nm(ka), Nm(ka)>>),
               Un(<<Sl(1, FALSE, 0, TRUE, 1, TRUE)>>), Un(<<Sl(0, TRUE, 0, TRUE, -1, FALSE)>>),
               Un(<<Sl(0, TRUE, 0, TRUE, 2, FALSE)>>), Un(<<Idx(0), Sl(0, FALSE, 1, FALSE, 1, TRUE), Star>>),
               Un(<<Star, Idx(0)>>) }
-SigmaPairs == {Nm(ka), Nm(kb), Wild} \cup Brackets \cup {Flt(q) : q \in Queries}
+SigmaPairs == {Nm(ka), Nm(kb), Wild} \cup Brackets \cup {Flt(q) : q \in (IF DocSet = "small" THEN QueriesQ ELSE Queries \cup QueriesQ)}
 SigmaTriples == {Nm(ka), Nm(kb), Wild, Multi(<<Nm(ka), Nm(kb)>>), Multi(<<Wild, Wild>>), Multi(<<Wild, Nm(ka)>>),
                  Un(<<Idx(0)>>), Un(<<Idx(1), Idx(0)>>), Un(<<Sl(0, TRUE, 0, TRUE, -1, FALSE)>>), Un(<<Star, Idx(0)>>)}
                 \cup {Flt(q) : q \in QueriesT}
